@@ -90,7 +90,8 @@ def c13_post(x, fault):
     if later:
         add("stepped-after-malformed-reply", f"{sid} stepped again at {[e[3] for e in later]}")
     for v in x.viol:
-        if v["prop"] in ("C01", "C02", "C03") and v.get("at", 0) > idx + 1 and v.get("cls") is None:
+        if v["prop"] in ("C01", "C02", "C03") and v.get("at", 0) > idx + 1 and v.get("cls") is None \
+                and v["kind"] != "lost-step":
             add("corrupts-later-steps", f"[{v['prop']}/{v['kind']}] {v['msg']}")
     return out
 
